@@ -210,7 +210,6 @@ Definition go_slice (l : list pos) (cap s e : Z) : option (list pos) :=
                  (skipn (Z.to_nat s) (l ++ repeat zero_pos (Z.to_nat (cap - zlen l)))))
   else None.
 
-Definition wrapped (g : gen) : bool := match g with GB2 => false | _ => true end.
 Definition removes (g : gen) : bool := match g with GV1 | GV2 => true | _ => false end.
 
 (* the verdict a unit reaches: V1 first tests vault.AppId != appIds[i] *)
@@ -220,19 +219,16 @@ Definition eff_verdict (g : gen) (app : Z) (p : pos) : verdict :=
   | _ => p_v p
   end.
 
-Inductive loop_end := Done | Aborted | Panicked.
-
-(* the for-loop over the window: wrapped generations swallow errors and (recovered) panics per
-   item; the V2 borrow loop returns on the first error and lets a panic escape *)
-Fixpoint sweep_items (g : gen) (app : Z) (items : list pos) : list Z * loop_end :=
+(* the for-loop over the window: all four sweeps run every item inside utils.ApplyFuncIfNoError
+   (the V2 borrow loop since fix C09-F3): an error or a (recovered) panic of one item is rolled
+   back and swallowed, the loop goes on with the next item *)
+Fixpoint sweep_items (g : gen) (app : Z) (items : list pos) : list Z :=
   match items with
-  | [] => ([], Done)
+  | [] => []
   | p :: rest =>
       match eff_verdict g app p with
-      | VSeize => let r := sweep_items g app rest in (p_id p :: fst r, snd r)
-      | VKeep => sweep_items g app rest
-      | VErr => if wrapped g then sweep_items g app rest else ([], Aborted)
-      | VPanic => if wrapped g then sweep_items g app rest else ([], Panicked)
+      | VSeize => p_id p :: sweep_items g app rest
+      | _ => sweep_items g app rest
       end
   end.
 
@@ -248,8 +244,7 @@ Record sweep_res := mkRes {
   r_seized : list Z;      (* ids seized, in order *)
   r_list : list pos;      (* the list afterwards *)
   r_off : Z;              (* the stored offset afterwards *)
-  r_counter : Z;          (* the stored length counter afterwards (vaults) *)
-  r_aborted : bool        (* V2 borrows: the loop returned early, offset not stored *)
+  r_counter : Z           (* the stored length counter afterwards (vaults) *)
 }.
 
 (* uint64 <-> int conversions of the stored counter: LengthOfVault is a uint64 that the seizure
@@ -259,28 +254,24 @@ Definition int_of_u64 (c : Z) : Z := if c >=? two63 then c - two64 else c.
 Definition u64 (x : Z) : Z := x mod two64.
 
 (* One sweep over the list, sliced by [len] (an int).  [cap] is the capacity of the slice the
-   keeper returned.  Result: seized ids, list afterwards, offset to store, aborted. *)
+   keeper returned.  Result: seized ids, list afterwards, offset to store (= end of the window,
+   computed on the list BEFORE the seizures). *)
 Definition sweep_core (g : gen) (app : Z) (l : list pos) (cap len off batch : Z)
-  : outcome (list Z * list pos * Z * bool) :=
+  : outcome (list Z * list pos * Z) :=
   let se := sweep_window len off batch in
   match go_slice l cap (fst se) (snd se) with
   | None => Panic
   | Some items =>
-      let r := sweep_items g app items in
-      let l' := after_seize g (fst r) l in
-      match snd r with
-      | Done => Ok (fst r, l', snd se, false)
-      | Aborted => Ok (fst r, l', off, true)
-      | Panicked => Panic
-      end
+      let sz := sweep_items g app items in
+      Ok (sz, after_seize g sz l, snd se)
   end.
 
 (* [counter] is the stored LengthOfVault for vaults (the callers slice the list by it, not by
    len(list)); for borrows the callers pass len(list). *)
 Definition sweep_one (g : gen) (app : Z) (l : list pos) (cap counter off batch : Z) : outcome sweep_res :=
   match sweep_core g app l cap (int_of_u64 counter) off batch with
-  | Ok (sz, l', o, ab) =>
-      Ok (mkRes sz l' o (if removes g then u64 (counter - zlen sz) else counter) ab)
+  | Ok (sz, l', o) =>
+      Ok (mkRes sz l' o (if removes g then u64 (counter - zlen sz) else counter))
   | Err c => Err c
   | Panic => Panic
   end.
@@ -322,21 +313,17 @@ Fixpoint sweep_v1 (capf : Z -> Z) (batch : Z) (apps : list (Z * bool)) (st : v1_
   end.
 
 (* ---- V2: liquidationsV2.Liquidate = LiquidateVaults(ctx, 0); LiquidateBorrows(ctx, 1).
-   The vault sweep reads and writes the offset under key 0.  The borrow sweep READS key 1 but,
-   when that is not found, builds NewLiquidationOffsetHolder(0) whose AppId field is 0 and never
-   sets AppId = offsetCounterId before SetLiquidationOffsetHolder, which keys by the AppId FIELD:
-   it WRITES key 0.  Key 1 is therefore never written, the borrow sweep always starts at 0, and
-   the vault sweep's offset is overwritten by the borrow sweep's [end] in every block in which
-   the borrow loop does not abort. *)
-Record v2_state := mkV2 { t_list : list pos; t_counter : Z; t_off0 : Z; t_borrows : list pos }.
+   The vault sweep reads and writes its offset under key 0, the borrow sweep under key 1 (since
+   fix C09-F2 it sets holder.AppId = offsetCounterId before SetLiquidationOffsetHolder, which keys
+   the record by that field): two independent offsets.  The borrow list is sliced by len(list). *)
+Record v2_state := mkV2 { t_list : list pos; t_counter : Z; t_off0 : Z; t_borrows : list pos; t_off1 : Z }.
 
-Definition sweep_v2 (capf : Z -> Z) (batch : Z) (st : v2_state) : outcome (list Z * list Z * v2_state * bool) :=
+Definition sweep_v2 (capf : Z -> Z) (batch : Z) (st : v2_state) : outcome (list Z * list Z * v2_state) :=
   match sweep_one GV2 0 (t_list st) (capf (zlen (t_list st))) (t_counter st) (t_off0 st) batch with
   | Ok r1 =>
-      match sweep_one GB2 0 (t_borrows st) (zlen (t_borrows st)) (zlen (t_borrows st)) 0 batch with
+      match sweep_one GB2 0 (t_borrows st) (zlen (t_borrows st)) (zlen (t_borrows st)) (t_off1 st) batch with
       | Ok r2 =>
-          let off0 := if r_aborted r2 then r_off r1 else r_off r2 in
-          Ok (r_seized r1, r_seized r2, mkV2 (r_list r1) (r_counter r1) off0 (r_list r2), r_aborted r2)
+          Ok (r_seized r1, r_seized r2, mkV2 (r_list r1) (r_counter r1) (r_off r1) (r_list r2) (r_off r2))
       | Err c => Err c
       | Panic => Panic
       end
@@ -418,16 +405,8 @@ Definition two_sweeps (n b : Z) : Z := 2 * ((n + b - 1) / b).
 (* known-finding classes *)
 (* C09-F1: more than two full sweeps of the list, but within the proved bound *)
 Definition kf_C09_1 (age m c b : Z) : bool := (age >? two_sweeps m b) && (age <=? live_bound m c b).
-(* C09-F2: V2 only.  The vault offset is overwritten every block by the borrow sweep (see
-   [sweep_v2]): the vault window is pinned at [o*, o*+batch) with o* = min(batch, #borrows); a
-   position whose index is outside it is not reached.  [idx] = index of the position. *)
-Definition kf_C09_2 (g : gen) (idx nborrows b : Z) : bool :=
-  match g with
-  | GV2 => let o := Z.min b nborrows in negb ((o <=? idx) && (idx <? o + b))
-  | _ => false
-  end.
-(* C09-F3: V2 borrow sweep aborted by an erroring borrow: nothing behind it is visited *)
-Definition kf_C09_3 (aborted : bool) : bool := aborted.
+(* (C09-F2, the V2 borrow sweep storing its offset under the vault sweep's key, and C09-F3, the V2
+   borrow loop aborted by the first erroring borrow, are repaired: no class) *)
 
 (* ------------------------------------------------------------------------------------ *)
 (* 6. the quiet / interleaved schedule used by the liveness theorems and by the in-Coq
@@ -443,7 +422,7 @@ Definition lpos (unsafe : Z -> bool) (id : Z) : pos := mkPos id 0 (if unsafe id 
 (* one block of the single-offset vault sweep on a list of ids *)
 Definition block_ids (ids : list Z) (off batch : Z) (unsafe : Z -> bool) : list Z * list Z * Z :=
   match sweep_core GV2 0 (map (lpos unsafe) ids) (zlen ids) (zlen ids) off batch with
-  | Ok (sz, l', o, _) => (sz, map p_id l', o)
+  | Ok (sz, l', o) => (sz, map p_id l', o)
   | _ => ([], ids, off)
   end.
 
@@ -475,13 +454,50 @@ Definition is_create (e : event) : Z := match e with ECreate _ => 1 | _ => 0 end
 Definition n_blocks (evs : list event) : Z := zsum (map is_block evs).
 Definition n_creates (evs : list event) : Z := zsum (map is_create evs).
 
+(* ---- the borrow schedule: a seized borrow is not removed, it stays in the list with
+   IsLiquidated set.  BBlock vf = one block of the V2 borrow sweep in which borrow id reaches the
+   verdict vf id (ANY verdict, errors and panics included, for every borrow: every price path and
+   every fault of another position); BClose id = the borrow is repaid / deleted (leaves the
+   list); BCreate id = a new borrow (appended).  State: ids, stored offset (key 1), the ids
+   liquidated so far. ---- *)
+Inductive bevent :=
+| BBlock (vf : Z -> verdict)
+| BClose (id : Z)
+| BCreate (id : Z).
+
+Definition bpos (vf : Z -> verdict) (liq : list Z) (id : Z) : pos :=
+  mkPos id 0 (if mem_z id liq then VKeep else vf id).
+
+Record bstate := mkB { bs_ids : list Z; bs_off : Z; bs_liq : list Z }.
+
+(* one block of the V2 borrow sweep on a list of ids: seized ids, offset to store *)
+Definition bblock_ids (ids liq : list Z) (off batch : Z) (vf : Z -> verdict) : list Z * Z :=
+  match sweep_core GB2 0 (map (bpos vf liq) ids) (zlen ids) (zlen ids) off batch with
+  | Ok (sz, _, o) => (sz, o)
+  | _ => ([], off)
+  end.
+
+Definition bev_step (batch : Z) (st : bstate) (e : bevent) : bstate :=
+  match e with
+  | BBlock vf =>
+      let r := bblock_ids (bs_ids st) (bs_liq st) (bs_off st) batch vf in
+      mkB (bs_ids st) (snd r) (bs_liq st ++ fst r)
+  | BClose id => mkB (filter (fun x => negb (x =? id)) (bs_ids st)) (bs_off st) (bs_liq st)
+  | BCreate id => mkB (bs_ids st ++ [id]) (bs_off st) (bs_liq st)
+  end.
+
+Definition is_bblock (e : bevent) : Z := match e with BBlock _ => 1 | _ => 0 end.
+Definition is_bcreate (e : bevent) : Z := match e with BCreate _ => 1 | _ => 0 end.
+Definition n_bblocks (evs : list bevent) : Z := zsum (map is_bblock evs).
+Definition n_bcreates (evs : list bevent) : Z := zsum (map is_bcreate evs).
+
 (* V2 hook iterated k times *)
 Fixpoint run_v2 (capf : Z -> Z) (batch : Z) (k : nat) (st : v2_state) : outcome v2_state :=
   match k with
   | O => Ok st
   | S k' =>
       match sweep_v2 capf batch st with
-      | Ok (_, _, st', _) => run_v2 capf batch k' st'
+      | Ok (_, _, st') => run_v2 capf batch k' st'
       | Err c => Err c
       | Panic => Panic
       end
